@@ -16,7 +16,9 @@ theorem applyBin_len (r : BinRes V) (rest : List V) : (applyBin r rest).opd.leng
 theorem calcNeg_len (S : Sem V) (opd : List V) (t : Tok) : (calcNeg S opd t).opd.length ≤ opd.length := by
   unfold calcNeg
   split
-  · cases opd <;> simp
+  · cases opd with
+    | nil => simp
+    | cons x r => simp only; cases S.neg x <;> simp
   · simp
 
 theorem calcSub_len (S : Sem V) (opd : List V) (t : Tok) : (calcSub S opd t).opd.length ≤ opd.length := by
@@ -107,11 +109,17 @@ theorem closeParen_len (S : Sem V) :
         have := calculate_len S opd top
         simp only [List.length_cons]; omega
 
-theorem applyPostfix_len (S : Sem V) (t : Tok) (l : List V) : (applyPostfix S t l).length = l.length := by
-  unfold applyPostfix
-  split
-  · cases l <;> simp
-  · rfl
+theorem applyPostfix_len (S : Sem V) (t : Tok) (l l' : List V) (h : applyPostfix S t l = some l') :
+    l'.length = l.length := by
+  unfold applyPostfix at h
+  split at h
+  · cases l with
+    | nil => simp only [Option.some.injEq] at h; rw [← h]
+    | cons x r =>
+      cases hp : S.pct x with
+      | none => simp [hp] at h
+      | some v => simp [hp] at h; rw [← h]; simp
+  · simp only [Option.some.injEq] at h; rw [← h]
 
 theorem parseToken_len (S : Sem V) (t0 : Tok) (opd : List V) (opt : List Tok) opd' opt'
     (h : parseToken S t0 opd opt = .ok (opd', opt')) :
@@ -147,9 +155,12 @@ theorem parseToken_len (S : Sem V) (t0 : Tok) (opd : List V) (opt : List Tok) op
           simp only [Bool.and_eq_true, beq_iff_eq] at hb; exact hb.1
         simp only [hnop, Bool.false_eq_true, if_false, Option.some.injEq, Prod.mk.injEq] at hr1
         simp only [hb, he, if_true, Bool.false_eq_true, if_false, hty, isOperand] at h
-        simp at h
-        have hp := applyPostfix_len S t opd
-        rw [← h.1, ← h.2, ← hr1.1, ← hr1.2]; simp [hp]; omega
+        cases hpf : applyPostfix S t opd1 with
+        | none => simp [hpf] at h
+        | some o =>
+          simp [hpf] at h
+          have hp := applyPostfix_len S t _ _ hpf
+          rw [← h.1, ← h.2]; simp only [List.length_cons]; omega
       · have hb' : isBeginParen t = false := by simpa using hb
         simp only [hb', Bool.false_eq_true, if_false] at h
         by_cases he : isEndParen t = true
@@ -163,18 +174,24 @@ theorem parseToken_len (S : Sem V) (t0 : Tok) (opd : List V) (opt : List Tok) op
           | ok r2 =>
             obtain ⟨opt2, opd2⟩ := r2
             simp only [hcp, hty, isOperand] at h
-            simp at h
-            have := closeParen_len S _ _ _ _ hcp
-            have hp := applyPostfix_len S t opd2
-            rw [← h.1, ← h.2]; omega
+            cases hpf : applyPostfix S t opd2 with
+            | none => simp [hpf] at h
+            | some o =>
+              simp [hpf] at h
+              have := closeParen_len S _ _ _ _ hcp
+              have hp := applyPostfix_len S t _ _ hpf
+              rw [← h.1, ← h.2]; omega
         · have he' : isEndParen t = false := by simpa using he
           simp only [he', Bool.false_eq_true, if_false] at h
-          simp only [Outcome.ok.injEq, Prod.mk.injEq] at h
-          rw [← h.1, ← h.2]
-          have hp := applyPostfix_len S t opd1
-          split
-          · simp only [List.length_cons, hp]; omega
-          · simp only [hp]; omega
+          cases hpf : applyPostfix S t opd1 with
+          | none => simp [hpf] at h
+          | some o =>
+            simp only [hpf, Outcome.ok.injEq, Prod.mk.injEq] at h
+            rw [← h.1, ← h.2]
+            have hp := applyPostfix_len S t _ _ hpf
+            split
+            · simp only [List.length_cons, hp]; omega
+            · simp only [hp]; omega
 
 theorem flushToSep_len (S : Sem V) (front : Bool) (sep : Tok) :
     ∀ (opft : List Tok) (opfd : List V) (args : List (List V)) opft' opfd' args',
